@@ -53,7 +53,10 @@ impl SavedSim {
                 || (
                     train_sim.is_finished()
                     // this needs to be reconsidered.  The issue is determining when SpeedLimitTrainSim is finished.
-                        && train_sim.state.speed > si::Velocity::ZERO
+                    // A train that has not moved yet is at rest without having arrived: on a route shorter
+                    // than the look-ahead the path is already finished before the first step
+                        && (train_sim.state.speed > si::Velocity::ZERO
+                            || train_sim.state.total_dist == si::Length::ZERO)
                     // train_sim.state.offset
                     //     < train_sim.path_tpc.offset_end() + train_sim.state.length
                 )
